@@ -1122,6 +1122,18 @@ def syn_tags(case: dict) -> list:
             f"syn-opt-{sh['opt']}", f"syn-lr-{sh['lr']}", f"syn-{'multi' if sh['multi'] else 'single'}"]
 
 
+def pre_gate(chk: Check) -> None:
+    """Regenerate lean/Gen/MutWireGen.lean from the source text of agilerl/hpo/mutation.py of the tree under test (before
+    the Lean gate) and re-check `generated wiring = model wiring` (Proofs/MutWireGenEq.lean) and the theorems over the
+    generated wiring (Props/C02.lean, `C02_source_translation_*`)."""
+    import common
+    import py2lean_mutwire
+    common.translation_gate(chk, py2lean_mutwire, "Gen/MutWireGen.lean", ["Gen.MutWireGen", "Proofs.MutWireGenEq", "Props.C02"],
+                            "the wiring of Mutations.mutation and the five mutation options: which registry groups are walked for "
+                            "target re-creation, which optimizers are re-created and with which learning rate, what is loaded into a "
+                            "re-created network, which method and arguments the other evaluation networks receive")
+
+
 def run(chk: Check) -> None:
     chk.rule = ("multi-generation histories (tournament select -> Mutations.mutation(pop) -> learn; 1-3 generations "
                 "quick, 6 thorough; probability vectors incl. the five unit vectors; pre_training_mut; mutate_elite) on "
